@@ -148,6 +148,13 @@ func (m *Metadata) UnmarshalBinary(data []byte) error {
 	// Read count and pre-size map to avoid rehashing.
 	count := int(binary.BigEndian.Uint16(data[pos:]))
 	pos += 2
+	// every header takes at least its two length prefixes and the section ends
+	// with the 8-byte deadline: reject a count the section cannot hold before
+	// pre-sizing the map from it (a tiny frame could otherwise demand a map for
+	// 65535 entries, far beyond the frame-size limit)
+	if count*4 > len(data)-pos-8 {
+		return ErrInvalidMetadata
+	}
 	m.headers = make(map[string]string, count)
 
 	for range count {
